@@ -5,11 +5,13 @@
 package wal
 
 import (
+	etcdRaft "github.com/coreos/etcd/raft"
 	"github.com/coreos/etcd/raft/raftpb"
 	uuid "github.com/satori/go.uuid"
 )
 
 var _ uuid.UUID
+var _ = etcdRaft.ErrCompacted
 var _ raftpb.Entry
 
 // ---------------------------------------------------------------------------------------------
@@ -377,3 +379,67 @@ var _ raftpb.Entry
 //@ ensures [C06 out-of-date] haveFirst == 1 && idx < first ==> !isnil(ret1) && marked == 0 && compacted == 0
 //@ ensures [C06 needs-confstate] confState == nil ==> ret1 == EmptyConfStateErr && marked == 0
 //@ modifies *
+
+// ---------------------------------------------------------------------------------------------
+// C06: the observers' own logic against the reference storage (etcd MemoryStorage), given the first and last index:
+//   Entries(lo, hi, max): lo <= offset (= first index - 1)  -> ErrCompacted;  hi > last + 1 -> ErrUnavailable (the reference
+//   panics there; raft never asks); otherwise the range scan with the same bounds and limit.
+//   Term(i): i < offset -> ErrCompacted; nothing stored at or below i's position -> ErrUnavailable; an entry found above i means
+//   i was compacted away; otherwise the stored entry's term.
+//   InitialState: the stored hard state, and the configuration of the stored snapshot.
+//@ func (*storage/wal.badgerWAL).HardState
+//@ props C06
+//@ assume
+//@ modifies nothing
+//@ func (*storage/wal.badgerWAL).Snapshot
+//@ props C06
+//@ assume
+//@ modifies * except type badgerWAL.cache; type badgerWAL.db; type badgerWAL.groupId
+//@ func (*storage/wal.badgerWAL).Entries
+//@ props C06
+//@ safety UNCLAIMED
+//@ ghost first uint64 = 0
+//@ ghost firstOK int = 0
+//@ ghost last uint64 = 0
+//@ ghost lastOK int = 0
+//@ ghost scanned int = 0
+//@ at call badgerWAL).FirstIndex
+//@ set first = $ret0
+//@ set firstOK = ite(isnil($ret1), 1, 0)
+//@ end
+//@ at call badgerWAL).LastIndex
+//@ set last = $ret0
+//@ set lastOK = ite(isnil($ret1), 1, 0)
+//@ end
+//@ at call badgerWAL).getEntries
+//@ requires [C06 scan-with-the-asked-bounds] $arg1 == lo && $arg2 == hi && $arg3 == maxSize && firstOK == 1 && lastOK == 1 && lo >= first && (last < 18446744073709551615 ==> hi <= last + 1)
+//@ set scanned = scanned + 1
+//@ end
+//@ requires [wal] this != nil && this.db != nil && this.cache != nil
+//@ ensures [C06 compacted-range] firstOK == 1 && lo < first ==> ret1 == etcdRaft.ErrCompacted && scanned == 0
+//@ ensures [C06 range-beyond-the-log] firstOK == 1 && lo >= first && lastOK == 1 && last < 18446744073709551615 && hi > last + 1 ==> ret1 == etcdRaft.ErrUnavailable && scanned == 0
+//@ ensures [C06 legal-range-is-scanned] firstOK == 1 && lo >= first && lastOK == 1 && last < 18446744073709551615 && hi <= last + 1 ==> scanned == 1
+//@ ensures [C06 lookup-errors-surface] firstOK == 0 ==> !isnil(ret1) && scanned == 0
+//@ modifies * except type badgerWAL.cache; type badgerWAL.db; type badgerWAL.groupId
+
+//@ func (*storage/wal.badgerWAL).Term
+//@ props C06
+//@ safety UNCLAIMED
+//@ ghost first uint64 = 0
+//@ ghost firstOK int = 0
+//@ ghost found int = 0
+//@ ghost seekErr error = nil
+//@ at call badgerWAL).FirstIndex
+//@ set first = $ret0
+//@ set firstOK = ite(isnil($ret1), 1, 0)
+//@ end
+//@ at call badgerWAL).seekEntry
+//@ requires [C06 looks-up-the-asked-index] $arg2 == idx && !$arg3 && $arg1 != nil && firstOK == 1 && idx + 1 >= first
+//@ set found = ite(isnil($ret1), 1, 0)
+//@ set seekErr = $ret1
+//@ end
+//@ requires [wal] this != nil && this.db != nil && this.cache != nil
+//@ ensures [C06 compacted-index] firstOK == 1 && idx + 1 < first ==> ret1 == etcdRaft.ErrCompacted && ret0 == 0
+//@ ensures [C06 nothing-stored-there] firstOK == 1 && idx + 1 >= first && found == 0 && seekErr == entryNotFoundErr ==> ret1 == etcdRaft.ErrUnavailable
+//@ ensures [C06 lookup-errors-surface] firstOK == 0 ==> !isnil(ret1)
+//@ modifies * except type badgerWAL.cache; type badgerWAL.db; type badgerWAL.groupId
